@@ -236,7 +236,7 @@ func runC18(c *Ctx) {
 	if fi := c.Func("R18d", pLint, "DevLoader", "nextStmts"); fi != nil {
 		info := fi.Info()
 		f := newFlow(info, fi.Decl.Body)
-		isExec := func(n ast.Node) bool { return nodeHasCall(info, n, dbExec) != nil }
+		isExec := func(n ast.Node) bool { return nodeHasCall(info, n, c.viaHelpers(dbExec, 2)) != nil }
 		isInspect := f.callNode(isCallTo(pLint, "DevLoader", "inspect"))
 		isDiff := func(n ast.Node) bool {
 			call := nodeHasCall(info, n, func(fn *types.Func, _ *ast.CallExpr) bool { return fn.Name() == "RealmDiff" })
